@@ -49,10 +49,12 @@ def scc_links(ck, facts, R):
                          "a solution obtained on the %s path can be returned without reporting the links of the node it came from: the caller then "
                          "looks like the head of its own SCC and its provisional result is promoted to the cache / kept across iterations" % name)
     th = sg.thir
+    from kit import let_bound, params_of_type
     args = [c["args"][1] for c in calls(th, "Minimums::update_from")]
+    sub = let_bound(th, lambda i: has_call(i, "solve_new_subgoal"))        # the minimums the new subgoal's iterations collected
     hit_ok = any(mentions_field(a, "links") for a in args)
-    new_ok = any(var_name(a) == "subgoal_minimums" for a in args)
-    st_ok = any(n.get("k") == "assign" and mentions_field(n["l"], "links") and var_name(n["r"]) == "subgoal_minimums" for n in walk(th))
+    new_ok = any(var_name(a) in sub for a in args)
+    st_ok = any(n.get("k") == "assign" and mentions_field(n["l"], "links") and var_name(n["r"]) in sub for n in walk(th))
     if hit_ok and new_ok and st_ok:
         ck.ok(R, "solve_goal:links-sources", "update_from(node.links) / node.links = subgoal_minimums / update_from(subgoal_minimums)")
     else:
@@ -67,17 +69,20 @@ def scc_links(ck, facts, R):
     if sn:
         th = sn.thir
         it = [c for c in calls(th, "solve_iteration")]
-        passes = bool(it) and any(var_name(a) == "minimums" for a in it[0]["args"])
-        rets_m = [n for n in walk(th) if n.get("k") == "return" and n.get("e") is not None and "minimums" in expr_vars(n["e"])]
-        fresh = [st for st in walk(th) if st.get("k") == "let" and st["pat"].get("n") == "minimums" and has_call(st["init"], "Minimums::new")]
-        if passes and len(rets_m) == 2 and len(fresh) == 1:
+        mins = let_bound(th, lambda i: has_call(i, "Minimums::new"))          # whatever the per-iteration minimums are called
+        passes = bool(it) and any(var_name(a) in mins for a in it[0]["args"])
+        from kit import user_block
+        rets = [n for n in walk(user_block(th)) if n.get("k") == "return" and n.get("e") is not None]
+        rets_m = [n for n in rets if expr_vars(n["e"]) & mins]
+        if passes and rets and len(rets_m) == len(rets) and len(mins) == 1:
             ck.ok(R, "solve_new_subgoal:returns-iteration-minimums")
         else:
-            ck.violation(R, "solve_new_subgoal:returns-iteration-minimums", sn.where(), "each iteration must collect minimums and both exits must return them")
+            ck.violation(R, "solve_new_subgoal:returns-iteration-minimums", sn.where(), "each iteration must collect minimums and every exit must return them")
     pr = need_body(ck, facts, R, "chalk_recursive::fulfill::Fulfill::prove")
     if pr:
         c = [x for x in calls(pr.thir, "solve_goal")]
-        if c and any(var_name(a) == "minimums" for a in c[0]["args"]):
+        mp = params_of_type(pr, "Minimums")
+        if c and mp and any(var_name(a) in mp for a in c[0]["args"]):
             ck.ok(R, "Fulfill::prove:threads-minimums")
         else:
             ck.violation(R, "Fulfill::prove:threads-minimums", pr.where(), "sub-goal minimums must flow into the caller's minimums")
